@@ -12,7 +12,10 @@
    string of arbitrary bytes, list, map) and all field types (ftype: string, bool, int/uint of every
    width, float, interface{}, pointer, slice, map, struct - nested to any depth).
 
-   [safe v T] (Model/Values.v) is the domain on which the value path format -> splice -> re-parse gives
+   The parameter fx says which tree is modelled: false = the unchanged value path (FormatAny), true = with
+   fixes/D-C17g.diff.  The correspondence check reads fx off the running code on every run.
+
+   [safe fx v T] (Model/Values.v) is the domain on which the value path format -> splice -> re-parse gives
    the field the prefix path gives:
      booleans                      always
      strings                       non-empty and [plain] (first byte none of ' " [ { + - digit, not
@@ -21,7 +24,9 @@
                                    (int_target: string, bool, int*, uint*, float*, pointers / slices of those,
                                    and map / struct targets, where both routes fail alike)
      floats                        in normal form (the harness always presents them so), of a magnitude that
-                                   %v writes in plain digits: 0 or 1e-4 <= |x| < 1e6 (dec_top_safe), any field type
+                                   %v writes in plain digits: 0 or 1e-4 <= |x| < 1e6 (dec_top_safe), any field type;
+                                   with the repair D-C17g (fx = true: the ${} callback splices a float64 with
+                                   FormatFloat 'f') floats of EVERY magnitude (c17_float_repaired)
      lists / maps                  [jsafe]: every string and key is JSON-plain (printable ASCII without
                                    " \ < > &), every integer is <= 2^53 in magnitude, every float is 0 or
                                    1e-6 <= |x| < 1e21 (encoding/json's plain-digit range), keys strictly sorted (the
@@ -78,37 +83,46 @@ Proof. vm_compute. reflexivity. Qed.
 (* ---- value:"${a.b}" and prop:"a.b" -------------------------------------------------------------------------- *)
 
 (* FormatAny, splice, ParseAny, Unmarshall gives what Get, Unmarshall gives - for ALL values and types in [safe] *)
-Theorem c17_paths_agree : forall v T, safe v T = true -> bind_formatted v T = bind_prefix v T.
+Theorem c17_paths_agree : forall fx v T, safe fx v T = true -> bind_formatted fx v T = bind_prefix v T.
 Proof. exact paths_agree. Qed.
 
-Corollary c17_paths_agree_text : forall v T text, safe v T = true -> format_any v = Ok text ->
+(* the form of the design note: on the unchanged tree (fx = false) the spliced text is FormatAny's *)
+Corollary c17_paths_agree_text : forall v T text, safe false v T = true -> format_any v = Ok text ->
   bind_value text T = bind_prefix v T.
-Proof. intros v T text Hs Hf. rewrite <- (paths_agree v T Hs). unfold bind_formatted. now rewrite Hf. Qed.
+Proof.
+  intros v T text Hs Hf. rewrite <- (paths_agree false v T Hs). unfold bind_formatted.
+  now rewrite format_cfg_false, Hf.
+Qed.
+
+(* with the repair D-C17g a float64 of ANY magnitude reaches every field type unchanged by the route *)
+Corollary c17_float_repaired : forall m e T, dec_normal m e = true ->
+  bind_formatted true (VDec m e) T = bind_prefix (VDec m e) T.
+Proof. intros m e T H. apply paths_agree. exact H. Qed.
 
 (* the same through the real tag text value:"${key}": the ${} stage (with its substitution budget), the #{}
    stage and the binding stage - provided the formatted text contains neither sigil ([inert]), so that
    neither stage touches it again *)
-Theorem c17_paths_agree_key : forall cfg key T text,
-  key_ok key = true -> safe (cfg key) T = true -> format_any (cfg key) = Ok text -> inert text = true ->
-  bind_key_value cfg key T = Some (bind_prefix (cfg key) T).
+Theorem c17_paths_agree_key : forall fx cfg key T text,
+  key_ok key = true -> safe fx (cfg key) T = true -> format_cfg fx (cfg key) = Ok text -> inert text = true ->
+  bind_key_value fx cfg key T = Some (bind_prefix (cfg key) T).
 Proof. exact paths_agree_key. Qed.
 
 (* prop:"key[,args]" binds exactly as value:"${key}[,args]" (the scan-time rewrite keeps the arguments, and the
    value part of both tags is ${key}) - for every configuration, every argument text and every field type *)
-Theorem c17_prop_is_value : forall cfg req key args T,
+Theorem c17_prop_is_value : forall fx cfg req key args T,
   simple_key key = true -> args = [] \/ (exists a, args = b_comma :: a) ->
-  bind_prop cfg req (key ++ args) T = bind_tag_value cfg req (tag_value_part (ph key ++ args)) T
+  bind_prop fx cfg req (key ++ args) T = bind_tag_value fx cfg req (tag_value_part (ph key ++ args)) T
   /\ tag_value_part (ph key ++ args) = ph key.
 Proof. exact prop_is_value. Qed.
 
-Corollary c17_prop_agrees : forall cfg key T text,
+Corollary c17_prop_agrees : forall fx cfg key T text,
   key_ok key = true -> simple_key key = true ->
-  safe (cfg key) T = true -> format_any (cfg key) = Ok text -> inert text = true ->
-  bind_prop cfg true key T = Some (bind_prefix (cfg key) T).
+  safe fx (cfg key) T = true -> format_cfg fx (cfg key) = Ok text -> inert text = true ->
+  bind_prop fx cfg true key T = Some (bind_prefix (cfg key) T).
 Proof.
-  intros cfg key T text Hk Hsk Hs Hf Hi.
-  destruct (prop_is_value cfg true key [] T Hsk (or_introl eq_refl)) as [H1 H2].
-  rewrite (app_nil_r key), (app_nil_r (ph key)) in H1. rewrite (app_nil_r (ph key)) in H2. rewrite H1, H2. exact (paths_agree_key cfg key T text Hk Hs Hf Hi).
+  intros fx cfg key T text Hk Hsk Hs Hf Hi.
+  destruct (prop_is_value fx cfg true key [] T Hsk (or_introl eq_refl)) as [H1 H2].
+  rewrite (app_nil_r key), (app_nil_r (ph key)) in H1. rewrite (app_nil_r (ph key)) in H2. rewrite H1, H2. exact (paths_agree_key fx cfg key T text Hk Hs Hf Hi).
 Qed.
 
 (* a non-trivial member of [safe]: nested maps and lists with integers, number-like / bool-like / quoted strings
@@ -122,24 +136,26 @@ Definition ex_safe_value : cval :=
         ([112]%N, VInt 8080);
         ([116;97;103;115]%N, VList [VStr [49;46;49;48]%N; VStr [84;82;85;69]%N; VStr [39;113;39]%N; VInt 7; VBool true; VNull])].
 Example c17_paths_agree_ex :
-  safe ex_safe_value ex_safe_type = true /\
-  bind_formatted ex_safe_value ex_safe_type = bind_prefix ex_safe_value ex_safe_type /\
+  safe false ex_safe_value ex_safe_type = true /\
+  bind_formatted false ex_safe_value ex_safe_type = bind_prefix ex_safe_value ex_safe_type /\
   (exists f, bind_prefix ex_safe_value ex_safe_type = Ok f).
 Proof. split; [vm_compute; reflexivity|]. split; [vm_compute; reflexivity|]. eexists. vm_compute. reflexivity. Qed.
 
 (* floats of everyday magnitude, into every kind of field *)
 Example c17_paths_agree_float_ex :
-  safe (VDec 31415 (-4)) (TSlice TString) = true /\ safe (VDec (-25) (-5)) TAny = true /\ safe (VDec 999999 0) (TInt 8) = true /\
-  bind_formatted (VDec 31415 (-4)) (TSlice TString) = Ok (FSlice [FStr [51;46;49;52;49;53]%N]) /\
-  safe (VDec 1 6) TString = false.
+  safe false (VDec 31415 (-4)) (TSlice TString) = true /\ safe false (VDec (-25) (-5)) TAny = true /\
+  safe false (VDec 999999 0) (TInt 8) = true /\
+  bind_formatted false (VDec 31415 (-4)) (TSlice TString) = Ok (FSlice [FStr [51;46;49;52;49;53]%N]) /\
+  safe false (VDec 1 6) TString = false /\ safe true (VDec 1 6) TString = true /\
+  bind_formatted true (VDec 1 6) TString = Ok (FStr [49;48;48;48;48;48;48]%N).
 Proof. repeat split; vm_compute; reflexivity. Qed.
 
 Definition ex_key : bytes := [97;112;112;46;99;102;103]%N.      (* app.cfg *)
 Example c17_paths_agree_key_ex :
   key_ok ex_key = true /\ simple_key ex_key = true /\
-  safe (cfg_of [(ex_key, ex_safe_value)] ex_key) ex_safe_type = true /\
-  (exists text, format_any (cfg_of [(ex_key, ex_safe_value)] ex_key) = Ok text /\ inert text = true) /\
-  bind_prop (cfg_of [(ex_key, ex_safe_value)]) true ex_key ex_safe_type
+  safe false (cfg_of [(ex_key, ex_safe_value)] ex_key) ex_safe_type = true /\
+  (exists text, format_cfg false (cfg_of [(ex_key, ex_safe_value)] ex_key) = Ok text /\ inert text = true) /\
+  bind_prop false (cfg_of [(ex_key, ex_safe_value)]) true ex_key ex_safe_type
     = Some (bind_prefix ex_safe_value ex_safe_type).
 Proof.
   split; [reflexivity|]. split; [reflexivity|]. split; [vm_compute; reflexivity|].
@@ -148,7 +164,7 @@ Qed.
 
 Example c17_prop_is_value_ex :
   simple_key ex_key = true /\
-  bind_prop (cfg_of [(ex_key, VStr [120]%N)]) false (ex_key ++ lit_req_false) TString = Some (Ok (FStr [120]%N)).
+  bind_prop false (cfg_of [(ex_key, VStr [120]%N)]) false (ex_key ++ lit_req_false) TString = Some (Ok (FStr [120]%N)).
 Proof. split; vm_compute; reflexivity. Qed.
 
 (* ---- value:"literal" ---------------------------------------------------------------------------------------- *)
@@ -161,8 +177,8 @@ Proof. exact literal_string. Qed.
 Theorem c17_literal_optional : forall s, plain s = true -> bind_value_r false s TString = Ok (FStr s).
 Proof. exact literal_string_optional. Qed.
 
-Theorem c17_literal_tag : forall cfg req s T, inert s = true ->
-  bind_tag_value cfg req s T = Some (bind_value_r req s T).
+Theorem c17_literal_tag : forall fx cfg req s T, inert s = true ->
+  bind_tag_value fx cfg req s T = Some (bind_value_r req s T).
 Proof. exact literal_tag. Qed.
 
 Definition ex_literal : bytes := [104;101;108;108;111;44;32;119;58;111;114;108;100;32;40;49;46;49;48;41]%N.  (* hello, w:orld (1.10) *)
@@ -174,41 +190,42 @@ Proof. split; [vm_compute; reflexivity|]. split; [discriminate|vm_compute; refle
 Ltac differ := intros H; vm_compute in H; discriminate H.
 
 (* KF-C17a  "1.10" into a string field: the value path binds "1.1" *)
-Theorem c17_number_like_refuted : exists v T, bind_formatted v T <> bind_prefix v T.
-Proof. exists (VStr [49;46;49;48]%N), TString. differ. Qed.
+Theorem c17_number_like_refuted : forall fx, exists v T, bind_formatted fx v T <> bind_prefix v T.
+Proof. intros fx. exists (VStr [49;46;49;48]%N), TString. destruct fx; differ. Qed.
 
 (* KF-C17b  "TRUE" into a string field: the value path binds "1" *)
-Theorem c17_bool_like_refuted : exists v T, bind_formatted v T <> bind_prefix v T.
-Proof. exists (VStr [84;82;85;69]%N), TString. differ. Qed.
+Theorem c17_bool_like_refuted : forall fx, exists v T, bind_formatted fx v T <> bind_prefix v T.
+Proof. intros fx. exists (VStr [84;82;85;69]%N), TString. destruct fx; differ. Qed.
 
 (* KF-C17c  'q' into a string field: the quotes are gone *)
-Theorem c17_quoted_refuted : exists v T, bind_formatted v T <> bind_prefix v T.
-Proof. exists (VStr [39;113;39]%N), TString. differ. Qed.
+Theorem c17_quoted_refuted : forall fx, exists v T, bind_formatted fx v T <> bind_prefix v T.
+Proof. intros fx. exists (VStr [39;113;39]%N), TString. destruct fx; differ. Qed.
 
 (* KF-C17d  "[a,b]" into a string field: parsed as a list, binding fails *)
-Theorem c17_bracketed_refuted : exists v T, bind_formatted v T <> bind_prefix v T.
-Proof. exists (VStr [91;97;44;98;93]%N), TString. differ. Qed.
+Theorem c17_bracketed_refuted : forall fx, exists v T, bind_formatted fx v T <> bind_prefix v T.
+Proof. intros fx. exists (VStr [91;97;44;98;93]%N), TString. destruct fx; differ. Qed.
 
 (* KF-C17e  2^53 + 1 into an int64 field: float64 rounding on the value path *)
-Theorem c17_big_int_refuted : exists v T, bind_formatted v T <> bind_prefix v T.
-Proof. exists (VInt 9007199254740993), (TInt 64). differ. Qed.
+Theorem c17_big_int_refuted : forall fx, exists v T, bind_formatted fx v T <> bind_prefix v T.
+Proof. intros fx. exists (VInt 9007199254740993), (TInt 64). destruct fx; differ. Qed.
 
 (* KF-C17f  123 into interface{}: int on the prefix path, float64 on the value path *)
-Theorem c17_int_in_any_refuted : exists v T, bind_formatted v T <> bind_prefix v T.
-Proof. exists (VInt 123), TAny. differ. Qed.
+Theorem c17_int_in_any_refuted : forall fx, exists v T, bind_formatted fx v T <> bind_prefix v T.
+Proof. intros fx. exists (VInt 123), TAny. destruct fx; differ. Qed.
 
-(* KF-C17g  the float64 1000000 into a string field: "1000000" by prefix, "1e+06" by value *)
-Theorem c17_float_eform_refuted : exists v T, bind_formatted v T <> bind_prefix v T.
+(* KF-C17g  the float64 1000000 into a string field: "1000000" by prefix, "1e+06" by value - on the unrepaired
+   tree only (fx = false); c17_float_repaired is the statement after fixes/D-C17g.diff *)
+Theorem c17_float_eform_refuted : exists v T, bind_formatted false v T <> bind_prefix v T.
 Proof. exists (VDec 1 6), TString. differ. Qed.
 
 (* KF-C17h  the empty string: bound by prefix, "required" error by value *)
-Theorem c17_empty_string_refuted : exists v T, bind_formatted v T <> bind_prefix v T.
-Proof. exists (VStr []), TString. differ. Qed.
+Theorem c17_empty_string_refuted : forall fx, exists v T, bind_formatted fx v T <> bind_prefix v T.
+Proof. intros fx. exists (VStr []), TString. destruct fx; differ. Qed.
 
 (* KF-C17i  "${nokey:7}x" under key k into a string field: substituted again on the value path ("7x") *)
-Theorem c17_placeholder_in_value_refuted : exists cfg key T,
-  key_ok key = true /\ bind_key_value cfg key T <> Some (bind_prefix (cfg key) T).
+Theorem c17_placeholder_in_value_refuted : forall fx, exists cfg key T,
+  key_ok key = true /\ bind_key_value fx cfg key T <> Some (bind_prefix (cfg key) T).
 Proof.
-  exists (cfg_of [([107]%N, VStr [36;123;110;111;107;101;121;58;55;125;120]%N)]), [107]%N, TString.
-  split; [reflexivity|differ].
+  intros fx. exists (cfg_of [([107]%N, VStr [36;123;110;111;107;101;121;58;55;125;120]%N)]), [107]%N, TString.
+  split; [reflexivity|destruct fx; differ].
 Qed.
